@@ -117,6 +117,8 @@ def _hashable(spec):
 
 def canon(spec):
     t = spec[0]
+    if t == "bigdict":
+        return ("bigdict", spec[1])
     if t == "lit":
         v = eval(spec[1])
         return ("lit", type(v).__name__, repr(v))
@@ -129,6 +131,8 @@ def canon(spec):
 
 def has_order(spec):
     t = spec[0]
+    if t == "bigdict":
+        return True
     if t == "lit":
         return False
     if t in ("set", "frozenset", "dict", "odict") and len(spec) > 2:
@@ -145,6 +149,9 @@ def gen_case(rng):
         m = mutate(rng, s)
         if m is not None and hashable_ok(m) and canon(m) != canon(s):
             specs.append(m)
+    if rng.random() < 0.3:
+        # more than 1000 entries (pickle writes dict items in batches of 1000) with keys that are only partially ordered
+        specs.append(["bigdict", rng.choice([1001, 1002, 1500, 2200])])
     nodes = [[0, 1], [1, 2], [2, 1], [rng.randrange(3, 4000), 3], [rng.randrange(3, 4000), 4], [0, 5]]
     return {"specs": specs, "nodes": nodes}
 
@@ -209,7 +216,8 @@ def run_case(case):
                 "steps": len(case["specs"]) * len(case["nodes"]), "switches": 0, "sim_time": 0.0,
                 "faults": {"interpreter_with_other_hash_seed": len(case["nodes"]),
                            "node_with_shuffled_order_and_unrelated_failing_hash_calls": sum(1 for n_ in case["nodes"] if n_[1] != 1)},
-                "probes": {"near_collision_pairs": len(case["specs"]) - 40},
+                "probes": {"near_collision_pairs": len(case["specs"]) - 40 - sum(1 for x in case["specs"] if x[0] == "bigdict"),
+                           "dict_of_more_than_1000_partially_ordered_keys": sum(1 for x in case["specs"] if x[0] == "bigdict")},
                 "nontrivial": True, "sample": {"nodes": case["nodes"], "specs": case["specs"][:3]}}
     finally:
         import shutil
@@ -217,6 +225,9 @@ def run_case(case):
 
 
 def _kinds(s, acc):
+    if s[0] == "bigdict":
+        acc.add("bigdict"); acc.add("frozenset")
+        return acc
     if s[0] != "lit":
         acc.add(s[0])
         for k in s[1:]:
